@@ -467,7 +467,13 @@ def _totality_chunk(arg: tuple) -> tuple[int, list[tuple[str, str, str]]]:
     fn_par = Obj(prog.cls("_griffe.models.Function"), {"parameters": {"x": Obj(None, {"name": "x", "annotation": "T", "default": "1", "__closed__": True})}, "returns": "Ret[A, B]",
                                                         "labels": set(), "name": "f", "path": "m.f", "__closed__": True}, label="function")
     prop_par = Obj(prog.cls("_griffe.models.Attribute"), {"annotation": "int", "labels": {"property"}, "name": "p", "path": "m.p", "members": {}, "__closed__": True}, label="property")
-    parents = {"no parent": None, "function": fn_par, "property": prop_par}
+    fcls_ = prog.cls("_griffe.models.Function")
+    init_attrs = {"parameters": {"x": Obj(None, {"name": "x", "annotation": "T", "default": "1", "__closed__": True})}, "returns": None, "labels": set(), "name": "__init__",
+                  "is_function": True, "__closed__": True}
+    klass_par = Obj(prog.cls("_griffe.models.Class"), {"name": "K", "path": "m.K", "is_class": True, "members": {}, "parent": None, "__closed__": True}, label="class")
+    init_detached = Obj(fcls_, {**init_attrs, "path": "__init__", "parent": None}, label="detached __init__")
+    init_in_class = Obj(fcls_, {**init_attrs, "path": "m.K.__init__", "parent": klass_par}, label="__init__ of a class")
+    parents = {"no parent": None, "function": fn_par, "property": prop_par, "detached __init__": init_detached, "__init__ of a class": init_in_class}
     configs = {
         "google": [{}, {"returns_multiple_items": False, "receives_multiple_items": False}, {"returns_named_value": False, "receives_named_value": False},
                    {"returns_type_in_property_summary": True}, {"ignore_init_summary": True}],
@@ -492,6 +498,8 @@ def _totality_chunk(arg: tuple) -> tuple[int, list[tuple[str, str, str]]]:
                     continue
                 if pname == "no parent" and opts and not thorough:
                     continue
+                if "__init__" in pname and not opts.get("ignore_init_summary"):
+                    continue  # these two parents only matter to the option that looks at them
                 ds = Obj(dcls, {"lines": list(lines), "value": value, "parent": par, "lineno": 1, "endlineno": len(lines)}, label="docstring")
                 it.steps = 0
                 try:
